@@ -1,5 +1,170 @@
-(* C04  Attribute handles are consistent with the declared database. (work in progress: Examples only) *)
-From BT Require Import Base.ListX AttDb.AttDbModel AttDb.AttDbSpec AttDb.AttDbExamples.
+(* C04  Attribute handles are consistent with the declared database.
+   Statements only; proofs live in AttDb/AttDbProofs.v and AttSrv/AttSrvProofsC04.v.
+
+   The abstract object is AttDbSpec.assign: walking the declaration (service declaration, include
+   declarations, per characteristic: declaration, value, [CCCD], [user description], descriptors) the
+   next handle is max( previous + 1, handle requested by attribute_handle<> / attribute_handles<> ).
+   All theorems quantify over every well formed configuration (wf = the static_asserts of the headers +
+   no 16 bit overflow), i.e. any number of services and characteristics.
+
+   With include_service<> the faithful model (and the code) violate (a)-(d): the full statements are
+   refuted below with the corpus configurations `includes` / `includes_fixed`; the theorems hold for
+   every configuration without include declarations. *)
+From BT Require Import Base.ListX AttDb.AttDbModel AttDb.AttDbSpec AttDb.AttDbProofs AttDb.AttDbExamples
+  NQueue.NQueueModel AttSrv.AttSrvModel AttSrv.AttSrvProofsC04.
 Local Open Scope N_scope.
-Example C04_wf_nonvacuous : wf cfg_basic3 /\ wf cfg_fixed_handles /\ wf cfg_includes.
+
+(* ---- (a) handle_by_index over all indices is the assignment; non-zero, strictly increasing *)
+Definition C04_handles_full : Prop :=
+  forall c, wf c -> map (handle_by_index c) (seqN 0 (N.to_nat (number_of_attributes c))) = assign c.
+
+Theorem C04_handles_partial :
+  forall c, wf c -> no_includes c ->
+    map (handle_by_index c) (seqN 0 (N.to_nat (number_of_attributes c))) = assign c.
+Proof. exact handle_by_index_is_assign. Qed.
+Print Assumptions C04_handles_partial.
+
+(* the assignment starts above 0 and increases strictly (for any declaration at all) *)
+Theorem C04_assign_increasing : forall c, increasing_from 0 (assign c) = true.
+Proof. exact assign_increasing. Qed.
+Print Assumptions C04_assign_increasing.
+
+Theorem C04_handles_refuted : ~ C04_handles_full.
+Proof.
+  intros H. specialize (H cfg_includes). assert (W : wf cfg_includes) by (vm_compute; reflexivity).
+  specialize (H W). vm_compute in H. discriminate H.
+Qed.
+Print Assumptions C04_handles_refuted.
+
+(* ---- (b) index_by_handle / first_index_by_handle *)
+Definition C04_inverse_full : Prop :=
+  forall c i, wf c -> i < number_of_attributes c -> index_by_handle c (handle_by_index c i) = i.
+
+Theorem C04_inverse_partial :
+  forall c i, wf c -> no_includes c -> i < number_of_attributes c ->
+    index_by_handle c (handle_by_index c i) = i /\ handle_by_index c i <> invalid_handle.
+Proof. exact index_by_handle_inverse. Qed.
+Print Assumptions C04_inverse_partial.
+
+Theorem C04_other_handles_invalid :
+  forall c h, wf c -> no_includes c ->
+    (forall i, i < number_of_attributes c -> handle_by_index c i <> h) ->
+    index_by_handle c h = invalid_index.
+Proof. exact index_by_handle_other. Qed.
+Print Assumptions C04_other_handles_invalid.
+
+(* first_index_by_handle h is the least index whose handle is >= h (first_ge over the assignment;
+   AttDbProofs.first_ge_spec says that this is what first_ge computes) *)
+Theorem C04_first_index_by_handle :
+  forall c h, wf c -> no_includes c -> first_index_by_handle c h = first_ge (assign c) h 0.
+Proof. exact first_index_by_handle_spec. Qed.
+Print Assumptions C04_first_index_by_handle.
+
+Theorem C04_first_ge_is_least :
+  forall l h i r, first_ge l h i = r -> r <> invalid_index ->
+    h <= nth (N.to_nat (r - i)) l 0 /\ forall j, (j < N.to_nat (r - i))%nat -> nth j l 0 < h.
+Proof. exact first_ge_spec. Qed.
+Print Assumptions C04_first_ge_is_least.
+
+Theorem C04_index_by_handle :
+  forall c h, wf c -> no_includes c -> index_by_handle c h = index_eq (assign c) h 0.
+Proof. exact index_by_handle_spec. Qed.
+Print Assumptions C04_index_by_handle.
+
+Theorem C04_inverse_refuted : ~ C04_inverse_full.
+Proof.
+  intros H. specialize (H cfg_includes 6). assert (W : wf cfg_includes) by (vm_compute; reflexivity).
+  assert (L : 6 < number_of_attributes cfg_includes) by (vm_compute; reflexivity).
+  specialize (H W L). vm_compute in H. discriminate H.
+Qed.
+Print Assumptions C04_inverse_refuted.
+
+(* ---- (c) every characteristic declaration carries the assigned handle of its value attribute, the
+   declared properties and the uuid *)
+Definition C04_decl_value_full : Prop :=
+  forall c i s ch, wf c -> attribute_at c i = Some (ACharDecl s ch) ->
+    char_decl_value c ch i
+    = Some (char_properties ch :: lo_hi (nth (N.to_nat (i + 1)) (assign c) 0) ++ uuid_bytes (c_uuid ch)).
+
+Theorem C04_decl_value_partial :
+  forall c i s ch, wf c -> no_includes c -> attribute_at c i = Some (ACharDecl s ch) ->
+    char_decl_value c ch i
+    = Some (char_properties ch :: lo_hi (nth (N.to_nat (i + 1)) (assign c) 0) ++ uuid_bytes (c_uuid ch))
+    /\ nth (N.to_nat (i + 1)) (assign c) 0 <> 0.
+Proof. exact char_decl_value_spec. Qed.
+Print Assumptions C04_decl_value_partial.
+
+(* the last characteristic declaration of the first service of `includes`: the value handle is 0
+   (assert in char_declaration_access) *)
+Theorem C04_decl_value_refuted : ~ C04_decl_value_full.
+Proof.
+  intros H. assert (W : wf cfg_includes) by (vm_compute; reflexivity).
+  destruct (attribute_at cfg_includes 5) as [a|] eqn:E; [|vm_compute in E; discriminate E].
+  vm_compute in E. injection E as <-.
+  match type of W with _ => idtac end.
+  eassert (X := H cfg_includes 5 _ _ W eq_refl). vm_compute in X. discriminate X.
+Qed.
+Print Assumptions C04_decl_value_refuted.
+
+(* ---- (d) every include declaration carries the included service's assigned first and last handle
+   (and its 16 bit uuid) *)
+Definition C04_include_value_full : Prop :=
+  forall c i u, wf c -> attribute_at c i = Some (AInclude u) ->
+    Some (include_value c u) = expected_value c (N.to_nat i).
+
+(* `includes_fixed`: service_handles counts attributes (4..7) where the included service really
+   lives at 48..72. No partial theorem is stated for (d): an include declaration exists only in
+   configurations in which (a) is already false. *)
+Theorem C04_include_value_refuted : ~ C04_include_value_full.
+Proof.
+  intros H. assert (W : wf cfg_includes_fixed) by (vm_compute; reflexivity).
+  eassert (X := H cfg_includes_fixed 1 _ W eq_refl). vm_compute in X. discriminate X.
+Qed.
+Print Assumptions C04_include_value_refuted.
+
+(* ---- non-vacuity *)
+Example C04_hypotheses_satisfiable :
+  (wf cfg_basic3 /\ no_includes cfg_basic3) /\ (wf cfg_fixed_handles /\ no_includes cfg_fixed_handles)
+  /\ (wf cfg_mtu300 /\ no_includes cfg_mtu300).
 Proof. repeat split; vm_compute; reflexivity. Qed.
+
+(* fixed handles with gaps: the assignment of the corpus configuration `fixed_handles` *)
+Example C04_assign_fixed_handles :
+  assign cfg_fixed_handles = [3; 5; 6; 9; 12; 15; 20; 22; 23; 24; 25; 26; 27; 28; 64; 80; 128; 256; 257; 258].
+Proof. vm_compute. reflexivity. Qed.
+
+(* the monitor is not trivially accepting: it rejects the shifted table of `includes` and a wrong
+   index_by_handle table for `basic3` *)
+Example C04_monitor_rejects_shifted_handles :
+  check_dump cfg_includes (map (handle_by_index cfg_includes) (seqN 0 17)) [] [] [] = Bad t_handles.
+Proof. vm_compute. reflexivity. Qed.
+
+Example C04_monitor_accepts_model_tables :
+  let c := cfg_fixed_handles in
+  let hs := seqN 0 261 in
+  check_dump c (map (handle_by_index c) (seqN 0 20)) (map (first_index_by_handle c) hs) (map (index_by_handle c) hs)
+             (map (fun i => match attribute_at c i with Some a => attr_uuid a | None => 0 end) (seqN 0 20)) = Ok.
+Proof. vm_compute. reflexivity. Qed.
+
+Example C04_monitor_rejects_wrong_index_table :
+  let c := cfg_basic3 in
+  let hs := seqN 0 (N.to_nat (number_of_attributes c) + 3) in
+  check_dump c (assign c) (map (first_index_by_handle c) hs) (map (fun h => if h =? 4 then 2 else index_by_handle c h) hs)
+             (map attr_uuid (decl_attrs c)) = Bad t_index_by_handle.
+Proof. vm_compute. reflexivity. Qed.
+
+Example C04_monitor_rejects_wrong_declaration :
+  check_read cfg_basic3 2 [11; 2; 9; 0; 0; 42] = Bad t_decl_value.
+Proof. vm_compute. reflexivity. Qed.
+
+(* constants the model uses are the code's (regenerated from codes.hpp on every run) *)
+From BT Require gen.GenAttSrv.
+Example C04_constants_are_the_codes :
+  GenAttSrv.gatt_uuid_primary_service = uuid_primary_service /\ GenAttSrv.gatt_uuid_secondary_service = uuid_secondary_service
+  /\ GenAttSrv.gatt_uuid_include = uuid_include /\ GenAttSrv.gatt_uuid_characteristic = uuid_characteristic
+  /\ GenAttSrv.gatt_uuid_characteristic_user_description = uuid_user_description
+  /\ GenAttSrv.gatt_uuid_client_characteristic_configuration = uuid_cccd
+  /\ GenAttSrv.gatt_uuid_internal_128bit_uuid = internal_128bit_uuid
+  /\ [GenAttSrv.char_property_read; GenAttSrv.char_property_write_without_response; GenAttSrv.char_property_write;
+      GenAttSrv.char_property_notify; GenAttSrv.char_property_indicate] = [2; 4; 8; 16; 32].
+Proof. repeat split; reflexivity. Qed.
